@@ -559,8 +559,16 @@ class Sut(object):
                 out.append(D(["C02"], "decoder-crash", exc=repr(e)))
         owner = m.page_owner()
         byw = m.webentities()
+        # structural invariants first: on a damaged structure the library's own traversals may fail or
+        # never return, so the bytes are judged before any of them is called
+        broken = set()
+        if dec is not None and dec.errors:
+            for f, codes in (("C02", ("S1", "S2", "S3", "S4", "S5")), ("C03", ("S7", "S2")), ("C19", ("S3", "S7-orphan"))):
+                if f in props and any(c.startswith(codes) for c, _ in dec.errors):
+                    self.structural(dec, out, [f], codes)
+                    broken.add(f)
         for f in ("C01", "C02", "C03", "C04", "C05", "C06", "C07", "C08", "C13", "C19", "C20"):
-            if f in props:
+            if f in props and f not in broken:
                 try:
                     getattr(self, "audit_" + f)(rng, out, dec, owner, byw)
                 except Exception as e:
